@@ -8,8 +8,11 @@ import (
 )
 
 func init() {
-	props["C06"] = c06
-	floors["C06"] = map[string]int{"C06.R1": 4, "C06.R2": 3, "C06.R3": 3, "C06.R4": 6, "C06.R5": 5, "C06.R6": 2, "C06.R7": 4}
+	props["C06"] = func(r *Report) {
+		c06(r)
+		r.Guard("C06.R8", "every lock taken is released on every exit: the certificate cache lock", func() { lockPairRule(r, "mitm") })
+	}
+	floors["C06"] = map[string]int{"C06.R1": 4, "C06.R2": 3, "C06.R3": 3, "C06.R4": 6, "C06.R5": 5, "C06.R6": 2, "C06.R7": 4, "C06.R8": 1}
 }
 
 // litFieldStores returns, for a struct allocated in fn (composite literal or
